@@ -15,7 +15,12 @@
 (*   ReadCtr   grid_filter.py: fun_name = "_gen_hsfilter_" + str(counter)   *)
 (*   IncCtr    grid_filter.py: counter += 1   (a separate line when the     *)
 (*             allocation is not atomic: Atomic = FALSE)                    *)
-(*   Define    _FnWrapper.__init__: exec(def ...) binds name -> function    *)
+(*   Publish   (only when the literal constants travel through a shared     *)
+(*             module global: PrivateConsts = FALSE) module._consts = ...   *)
+(*   Define    _FnWrapper.__init__: exec(def ...) binds name -> function;   *)
+(*             the function's literals (_c default) are bound from a        *)
+(*             namespace private to the constructor (PrivateConsts) or from *)
+(*             the shared slot                                              *)
 (*   Insert    C: after the call returns: store unless the key appeared     *)
 (*             meanwhile; evict the LRU entry when full                     *)
 (*   Get       wrapper.get(): globals()[name]                               *)
@@ -28,6 +33,7 @@ CONSTANTS Threads,   \* thread identities
           Filters,   \* filter identities (naturals > 0)
           K,         \* LRU capacity
           Atomic,    \* BOOLEAN: name allocation is one step
+          PrivateConsts, \* BOOLEAN: the literals reach the generated function through a private namespace
           MaxCalls   \* bound on the number of Lookups (model checking only)
 
 VARIABLES pc,      \* thread -> control state
@@ -35,6 +41,9 @@ VARIABLES pc,      \* thread -> control state
           hold,    \* thread -> wrapper id it references (0: none)
           nm,      \* thread -> name read from the counter (between ReadCtr and Define)
           fn,      \* thread -> filter whose code it obtained (0: none)
+          fc,      \* thread -> filter whose literal constants the obtained function is bound to
+          cs,      \* generated name -> filter whose constants the function of that name is bound to
+          shared,  \* the module-global constants slot (0: unset; unused when PrivateConsts)
           ctr,     \* the module-wide name counter
           ns,      \* module namespace: generated name -> filter whose code it holds
           wr,      \* live wrappers: wrapper id -> [f, name]
@@ -42,7 +51,7 @@ VARIABLES pc,      \* thread -> control state
           lru,     \* sequence of wrapper ids, least recently used first
           hits, misses, calls
 
-vars == <<pc, want, hold, nm, fn, ctr, ns, wr, nwr, lru, hits, misses, calls>>
+vars == <<pc, want, hold, nm, fn, fc, cs, shared, ctr, ns, wr, nwr, lru, hits, misses, calls>>
 
 Range(s) == {s[i] : i \in 1..Len(s)}
 Restrict(f, S) == [x \in S |-> f[x]]
@@ -54,6 +63,9 @@ Init == /\ pc = [t \in Threads |-> "idle"]
         /\ hold = [t \in Threads |-> 0]
         /\ nm = [t \in Threads |-> 0]
         /\ fn = [t \in Threads |-> 0]
+        /\ fc = [t \in Threads |-> 0]
+        /\ cs = <<>>
+        /\ shared = 0
         /\ ctr = 0
         /\ ns = <<>>
         /\ wr = <<>>
@@ -68,6 +80,7 @@ Lookup(t, f) ==
     /\ calls' = calls + 1
     /\ want' = [want EXCEPT ![t] = f]
     /\ fn' = [fn EXCEPT ![t] = 0]
+    /\ fc' = [fc EXCEPT ![t] = 0]
     /\ IF Cached(f) # {}
        THEN LET w == CHOOSE x \in Cached(f) : TRUE
             IN /\ hits' = hits + 1 /\ UNCHANGED misses
@@ -76,50 +89,58 @@ Lookup(t, f) ==
                /\ pc' = [pc EXCEPT ![t] = "have"]
        ELSE /\ misses' = misses + 1 /\ UNCHANGED <<hits, lru, hold>>
             /\ pc' = [pc EXCEPT ![t] = "miss"]
-    /\ UNCHANGED <<nm, ctr, ns, wr, nwr>>
+    /\ UNCHANGED <<nm, ctr, ns, cs, shared, wr, nwr>>
 
 ReadCtr(t) ==
     /\ pc[t] = "miss"
     /\ nm' = [nm EXCEPT ![t] = ctr]
     /\ IF Atomic THEN ctr' = ctr + 1 /\ pc' = [pc EXCEPT ![t] = "counted"]
                  ELSE UNCHANGED ctr /\ pc' = [pc EXCEPT ![t] = "named"]
-    /\ UNCHANGED <<want, hold, fn, ns, wr, nwr, lru, hits, misses, calls>>
+    /\ UNCHANGED <<want, hold, fn, fc, cs, shared, ns, wr, nwr, lru, hits, misses, calls>>
 
 IncCtr(t) ==
     /\ pc[t] = "named"
     /\ ctr' = ctr + 1
     /\ pc' = [pc EXCEPT ![t] = "counted"]
-    /\ UNCHANGED <<want, hold, nm, fn, ns, wr, nwr, lru, hits, misses, calls>>
+    /\ UNCHANGED <<want, hold, nm, fn, fc, cs, shared, ns, wr, nwr, lru, hits, misses, calls>>
+
+Publish(t) ==
+    /\ ~PrivateConsts
+    /\ pc[t] = "counted"
+    /\ shared' = want[t]
+    /\ pc' = [pc EXCEPT ![t] = "published"]
+    /\ UNCHANGED <<want, hold, nm, fn, fc, cs, ctr, ns, wr, nwr, lru, hits, misses, calls>>
 
 Define(t) ==
-    /\ pc[t] = "counted"
+    /\ pc[t] = (IF PrivateConsts THEN "counted" ELSE "published")
     /\ ns' = Put(ns, nm[t], want[t])
+    /\ cs' = Put(cs, nm[t], IF PrivateConsts THEN want[t] ELSE shared)
     /\ nwr' = nwr + 1
     /\ wr' = Put(wr, nwr + 1, [f |-> want[t], name |-> nm[t]])
     /\ hold' = [hold EXCEPT ![t] = nwr + 1]
     /\ pc' = [pc EXCEPT ![t] = "defined"]
-    /\ UNCHANGED <<want, nm, fn, ctr, lru, hits, misses, calls>>
+    /\ UNCHANGED <<want, nm, fn, fc, shared, ctr, lru, hits, misses, calls>>
 
 Insert(t) ==
     /\ pc[t] = "defined"
     /\ IF Cached(want[t]) # {} THEN UNCHANGED lru                    \* key appeared meanwhile: not stored
        ELSE lru' = Append(IF Len(lru) >= K THEN Tail(lru) ELSE lru, hold[t])
     /\ pc' = [pc EXCEPT ![t] = "have"]
-    /\ UNCHANGED <<want, hold, nm, fn, ctr, ns, wr, nwr, hits, misses, calls>>
+    /\ UNCHANGED <<want, hold, nm, fn, fc, cs, shared, ctr, ns, wr, nwr, hits, misses, calls>>
 
 Get(t) ==
     /\ pc[t] = "have"
     /\ LET n == wr[hold[t]].name
        IN IF n \in DOMAIN ns
-          THEN fn' = [fn EXCEPT ![t] = ns[n]] /\ pc' = [pc EXCEPT ![t] = "got"]
-          ELSE fn' = fn /\ pc' = [pc EXCEPT ![t] = "keyerror"]
+          THEN fn' = [fn EXCEPT ![t] = ns[n]] /\ fc' = [fc EXCEPT ![t] = cs[n]] /\ pc' = [pc EXCEPT ![t] = "got"]
+          ELSE fn' = fn /\ fc' = fc /\ pc' = [pc EXCEPT ![t] = "keyerror"]
     /\ hold' = [hold EXCEPT ![t] = 0]                                \* the temporary reference is dropped
-    /\ UNCHANGED <<want, nm, ctr, ns, wr, nwr, lru, hits, misses, calls>>
+    /\ UNCHANGED <<want, nm, cs, shared, ctr, ns, wr, nwr, lru, hits, misses, calls>>
 
 Call(t) ==
     /\ pc[t] = "got"
     /\ pc' = [pc EXCEPT ![t] = "idle"]
-    /\ UNCHANGED <<want, hold, nm, fn, ctr, ns, wr, nwr, lru, hits, misses, calls>>
+    /\ UNCHANGED <<want, hold, nm, fn, fc, cs, shared, ctr, ns, wr, nwr, lru, hits, misses, calls>>
 
 Referenced(w) == w \in Range(lru) \/ \E t \in Threads : hold[t] = w
 Unreferenced  == DOMAIN wr \ (Range(lru) \cup {hold[t] : t \in Threads})   \* computed once per step
@@ -129,10 +150,11 @@ Finalise(w) ==
     /\ ~Referenced(w)
     /\ wr' = Restrict(wr, DOMAIN wr \ {w})
     /\ ns' = Restrict(ns, DOMAIN ns \ {wr[w].name})     \* deletes the *name*, whoever defined it last
-    /\ UNCHANGED <<pc, want, hold, nm, fn, ctr, nwr, lru, hits, misses, calls>>
+    /\ cs' = Restrict(cs, DOMAIN cs \ {wr[w].name})
+    /\ UNCHANGED <<pc, want, hold, nm, fn, fc, shared, ctr, nwr, lru, hits, misses, calls>>
 
 ThreadStep(t) == \/ \E f \in Filters : Lookup(t, f)
-                 \/ ReadCtr(t) \/ IncCtr(t) \/ Define(t) \/ Insert(t) \/ Get(t) \/ Call(t)
+                 \/ ReadCtr(t) \/ IncCtr(t) \/ Publish(t) \/ Define(t) \/ Insert(t) \/ Get(t) \/ Call(t)
 
 Next == \/ \E t \in Threads : ThreadStep(t)
         \/ \E w \in Unreferenced : Finalise(w)
@@ -144,17 +166,18 @@ Bound == calls <= MaxCalls
 (***************************************************************************)
 (* Properties (C13).                                                       *)
 (***************************************************************************)
-\* a thread that obtained a function obtained the code of the filter it asked for
-NoCrossTalk   == \A t \in Threads : pc[t] = "got" => fn[t] = want[t]
+\* a thread that obtained a function obtained the code of the filter it asked for, bound to that filter's literals
+NoCrossTalk   == \A t \in Threads : pc[t] = "got" => fn[t] = want[t] /\ fc[t] = want[t]
 \* wrapper.get() never fails
 GetNeverFails == \A t \in Threads : pc[t] # "keyerror"
 \* cached wrappers have pairwise distinct names, and each name holds its own filter's code
 NamesUnique   == Cardinality({wr[lru[i]].name : i \in 1..Len(lru)}) = Len(lru)
 CachedWorks   == \A i \in 1..Len(lru) :
-                     LET w == lru[i] IN wr[w].name \in DOMAIN ns /\ ns[wr[w].name] = wr[w].f
+                     LET w == lru[i] IN wr[w].name \in DOMAIN ns /\ ns[wr[w].name] = wr[w].f /\ cs[wr[w].name] = wr[w].f
 LruBound      == Len(lru) <= K
 OneEntryPerFilter == Cardinality({wr[lru[i]].f : i \in 1..Len(lru)}) = Len(lru)
 Accounting    == hits + misses = calls
 TypeOK        == /\ \A t \in Threads : hold[t] = 0 \/ hold[t] \in DOMAIN wr
                  /\ Range(lru) \subseteq DOMAIN wr
+                 /\ DOMAIN cs = DOMAIN ns
 =============================================================================
